@@ -1075,7 +1075,8 @@ def run(ctx):
                    "files that fit); symbolic links that already exist inside the destination (to a directory, a file, "
                    "nothing, an ancestor; relative and absolute) met by plain received names; a fixed systematic part in every "
                    "run (see `systematic`, `env_cases`: scripted st_blksize, fragmented/short/interrupted reads, interrupted/"
-                   "short writes, failing open/fstat at every call index); jail around the "
+                   "short writes, failing open/fstat at every call index; every name that leads or nearly leads out of DEST x -y on/off "
+                   "x -p on/off x DEST existing directory / directory with slash / existing file / missing); jail around the "
                    "destination holds victim files/dirs.  non-trivial = the stream starts with >= 1 syntactically "
                    "valid control record; distinct = distinct (stream, dest, options)"}
     dist = {"reply_classes": {}, "escapes": 0, "malformed": 0, "crash": 0, "model_mismatch": 0}
